@@ -167,7 +167,10 @@ def run(ctx):
         # binding demonstration: a corrupted view must be rejected by the specification's operator
         if not views:
             raise ToolError("no views observed")
-        m = json.loads(json.dumps(next(v for v in views if len(v["seen"]) > 1)))
+        good = next((v for k, v in enumerate(views) if len(v["seen"]) > 1 and k not in bad), None)
+        if good is None:
+            raise ToolError("no agreeing multi-module view available for the binding demonstration")
+        m = json.loads(json.dumps(good))
         m["seen"][0][0] ^= 8
         vj = rr.tlc_judge(views=[dict(m, id=0)], name="c38demo")
         if not vj["views_bad"]:
@@ -178,9 +181,8 @@ def run(ctx):
     cov["outcomes"] = {"ok": n_ok, "one_address_broken": n_bad, "rejected_by_wild": n_rej}
     cov["scenarios_enumerated"] = len(recs)
     cov["exhaustive"] = not ctx.quick
-    if n_ok < len(results):
-        if n_ok < len(results) // 2:
-            raise ToolError(f"only {n_ok} (scenario, linker set) pairs passed out of {2 * len(results)}: vacuous")
+    if n_ok + n_bad < len(results) // 2:
+        raise ToolError(f"only {n_ok + n_bad} (scenario, linker set) pairs were linked by wild out of {2 * len(results)}: vacuous")
     cov["samples"] = trim_samples(cov["samples"], 4, 700)
     return {"level": "model_checking", "coverage": cov,
             "assumptions": ["one shared entity per program, default visibility, three modules, x86-64",
